@@ -370,7 +370,8 @@ Definition run_case (fid : Z) (v : val) : val :=
                             | _, _ => VL []
                             end) [0%N; 1%N])
   (* 47: (args rules files) -> per file: (sorted ids of the rules applied) and the effective severities;
-         args = ((opt ids) x5 (opt filter-ids)); rule = (id lang sev (opt globs) (opt globs)); file = ((opt builtin lang by extension) (matching globs) (opt lang configured by languageGlobs)) *)
+         args = ((opt ids) x5 (opt filter-ids)); rule = (id lang sev (opt globs) (opt globs)); file = ((opt builtin lang by extension) (matching globs, those of languageGlobs included));
+         4th component: the languageGlobs entries (name lang (glob ids)) *)
   | 47 => let gsev (z : Z) := match z with 0%Z => SError | 1%Z => SWarning | 2%Z => SInfo | 3%Z => SHint | _ => SOff end in
           let vsev (s : sev) := VZ (match s with SError => 0 | SWarning => 1 | SInfo => 2 | SHint => 3 | SOff => 4 end) in
           let a := gNth 0 v in
@@ -378,7 +379,9 @@ Definition run_case (fid : Z) (v : val) : val :=
                        oa_hint := gOpt (gList gS) (gNth 3 a); oa_off := gOpt (gList gS) (gNth 4 a); oa_filter := gOpt (gList gS) (gNth 5 a) |} in
           let rules := gList (fun r => {| fr_id := gS (gNth 0 r); fr_lang := gN (gNth 1 r); fr_sev := gsev (gZ (gNth 2 r));
                                           fr_files := gOpt (gList gN) (gNth 3 r); fr_ignores := gOpt (gList gN) (gNth 4 r) |}) (gNth 1 v) in
-          VL (map (fun f => let ff := {| ff_lang := from_path (gOpt gN (gNth 2 f)) None (gOpt gN (gNth 0 f)); ff_globs := gList gN (gNth 1 f) |} in
+          let regs := gList (fun e => (gS (gNth 0 e), (gN (gNth 1 e), gList gN (gNth 2 e)))) (gNth 3 v) in
+          VL (map (fun f => let ff0 := {| ff_lang := None; ff_globs := gList gN (gNth 1 f) |} in
+                            let ff := {| ff_lang := from_path (lang_globs_from_path regs ff0) None (gOpt gN (gNth 0 f)); ff_globs := gList gN (gNth 1 f) |} in
                             VL (map (fun r => VL [VS (fr_id r); vsev (fr_sev r)]) (rules_for_file oa rules ff))) (gL (gNth 2 v)))
   (* 42: (style ((doc ..) ..)) -> bytes written by the JSON printer *)
   | 42 => VS (run_printer (match gZ (gNth 0 v) with 0%Z => Pretty | 1%Z => Stream | _ => Compact end)
